@@ -107,7 +107,7 @@ def oracle(ctx, deep=False):
         case = {"cfg": cfgj, "control": meanx.float_table(ctx.rng, ctx.rng.choice([3, 10, 200]), kind=kind),
                 "treatment": meanx.float_table(ctx.rng, ctx.rng.choice([4, 30, 150]), kind=kind),
                 "affine": [ctx.rng.choice([-3.0, 0.5, 2.0, 1e3]), ctx.rng.choice([0.0, -7.0, 11.0])],
-                "scale": ctx.rng.choice([1e-3, 0.25, 8.0, 1e4])}
+                "scale": ctx.rng.choice([1e-9, 1e-7, 1e-3, 0.25, 8.0, 1e4, 1e7])}      # covariates in micro-units and in millions
         bad = _run_case(case)
         ctx.evaluations += 1
         ctx.count("oracle:" + ("ratio" if cfg["denom"] else "mean") + "+cov%d" % (1 + (cfg["denom_covariate"] is not None)))
